@@ -1366,6 +1366,10 @@ impl<'de, R: Read<'de>> Parser<R> {
 
     #[cfg(not(feature = "fast-float-parsing"))]
     fn f64_from_parts(&mut self, pos: bool, significand: u64, exponent: i32) -> Result<f64> {
+        self.f64_from_parts_exact(pos, significand, exponent)
+    }
+
+    fn f64_from_parts_exact(&mut self, pos: bool, significand: u64, exponent: i32) -> Result<f64> {
         // Slow path -- in the `fast-float-parsing` variant, we
         // potentially lose digits by casting `significand` (which is
         // may exceeds 52 bits) to `f64`, as well as by the divisions
@@ -1410,6 +1414,13 @@ impl<'de, R: Read<'de>> Parser<R> {
                         f *= pow;
                         if f.is_infinite() {
                             return Err(self.error(ErrorCode::NumberOutOfRange));
+                        }
+                        // The product is only accurate to a few units in the
+                        // last place, so a magnitude just beyond the range of
+                        // a double can come out as a finite value next to
+                        // `f64::MAX`. Let the exact conversion decide there.
+                        if f > f64::MAX * (1.0 - 1e-15) {
+                            return self.f64_from_parts_exact(pos, significand, exponent);
                         }
                     } else {
                         f /= pow;
